@@ -118,3 +118,51 @@ Proof.
   vm_compute in Hs. inversion Hs. subst files. clear Hs.
   eexists. split; [reflexivity|]. split; vm_compute; tauto.
 Qed.
+
+(** ** Author links: site level
+
+    For a generated site (unique names per directory, no "/" inside names): whenever the
+    target of an author's link is the source of a page (a recipe file, a directory, a readme) -
+    i.e. has an entry [(wp, scalable)] in the generator's [source_to_page_paths] - the link is
+    rewritten to [relative_url(page, page_target page wp scalable)] (+ query and fragment) and
+    that target IS WRITTEN: [wp] itself, or, on a page below /serves<n>, the same page under
+    /serves<n> when it exists at every count (category pages, recipes that state their
+    servings); the home page and unscalable recipes are never moved. *)
+Theorem C14_author_links : forall E fs input M files root t,
+  generate_static_site E fs input M = Ok files ->
+  realpath fs input = ROk root -> view_root fs root = Some t -> uniq_names t -> names_noslash t -> 1 <= M ->
+  exists hm h, from_root_directory E t root M = Ok (hm, h) /\
+    forall f po, In (f, CPageOut po) files ->
+    forall source url parts p wp sc,
+      urlsplit (str_strip url) = USplit parts -> local_url parts ->
+      url_fspath fs root source (u_path parts) = ROk p ->
+      lookup_last p (source_lookup hm h) None = Some (wp, sc) ->
+      rewrite_link fs root source f (source_lookup hm h) url =
+        LPage (urlunsplit_local (quote (href_relative f (page_target f wp sc))) (u_query parts) (u_fragment parts)) /\
+      In (page_target f wp sc) (map fst files).
+Proof.
+  intros E fs input M files root t Hgen Hroot Hview Hu Hns HM.
+  destruct (site_author_links E fs input M files root t Hgen Hroot Hview Hu Hns HM) as (hm & h & Hb & Hall).
+  exists hm, h. split; [exact Hb|]. intros f po Hf source url parts p wp sc Hs Hloc Hfp Hl. split.
+  - eapply rewrite_link_page; eassumption.
+  - eapply Hall; eassumption.
+Qed.
+Print Assumptions C14_author_links.
+
+(** every address in [source_to_page_paths] is a written page (no hypothesis on the tree) *)
+Theorem C14_lookup_targets_written : forall E fs input M files,
+  generate_static_site E fs input M = Ok files ->
+  exists root t hm h,
+    realpath fs input = ROk root /\ view_root fs root = Some t /\ from_root_directory E t root M = Ok (hm, h) /\
+    forall src wp sc, lookup_last src (source_lookup hm h) None = Some (wp, sc) -> In wp (map fst files).
+Proof. exact site_lookup_written. Qed.
+Print Assumptions C14_lookup_targets_written.
+
+Example C14_author_links_hyp_ex :
+  exists t, view_root demo_fs demo_root = Some t /\ uniq_names t /\ names_noslash t.
+Proof.
+  destruct (view_root demo_fs demo_root) as [t|] eqn:Hv; [|vm_compute in Hv; discriminate].
+  exists t. split; [reflexivity|]. vm_compute in Hv. inversion Hv; subst t. clear Hv. split.
+  - cbn [uniq_names map sname]. repeat split; repeat constructor; cbv; intuition discriminate.
+  - cbn [names_noslash sname]. repeat split; repeat constructor.
+Qed.
